@@ -79,9 +79,7 @@ func (lh *WorkerLoop) Run(ctx context.Context) {
 			return
 
 		case msg := <-lh.MessagesChannel:
-			parsedMessage := interfaces.ToConsensusMessage(msg)
-			lh.logger.Debug("LHFLOW LHMSG WORKERLOOP RECEIVED %v from %v for H=%d V=%d", parsedMessage.MessageType(), parsedMessage.SenderMemberId(), parsedMessage.BlockHeight(), parsedMessage.View())
-			lh.filter.HandleConsensusRawMessage(msg)
+			lh.handleRawMessage(msg)
 
 		case trigger := <-lh.electionChannel:
 			if trigger == nil {
@@ -112,6 +110,24 @@ func (lh *WorkerLoop) Run(ctx context.Context) {
 	}
 }
 
+// handleRawMessage processes one message received from the network. Its content is untrusted:
+// a message that cannot be parsed, or whose nested parts turn out to be malformed while it is
+// being handled, is dropped instead of crashing the worker loop.
+func (lh *WorkerLoop) handleRawMessage(msg *interfaces.ConsensusRawMessage) {
+	defer func() {
+		if r := recover(); r != nil {
+			lh.logger.Error("LHFLOW LHMSG WORKERLOOP IGNORING MALFORMED MESSAGE - %v", r)
+		}
+	}()
+	parsedMessage, err := parseConsensusMessage(msg)
+	if err != nil {
+		lh.logger.Info("LHFLOW LHMSG WORKERLOOP IGNORING MESSAGE - %s", err)
+		return
+	}
+	lh.logger.Debug("LHFLOW LHMSG WORKERLOOP RECEIVED %v from %v for H=%d V=%d", parsedMessage.MessageType(), parsedMessage.SenderMemberId(), parsedMessage.BlockHeight(), parsedMessage.View())
+	lh.filter.HandleConsensusRawMessage(msg)
+}
+
 func (lh *WorkerLoop) handleUpdateState(receivedBlockWithProof *blockWithProof) {
 	receivedBlockHeight := blockheight.GetBlockHeight(receivedBlockWithProof.block)
 
@@ -125,7 +141,12 @@ func (lh *WorkerLoop) handleUpdateState(receivedBlockWithProof *blockWithProof) 
 	}
 }
 
-func (lh *WorkerLoop) ValidateBlockConsensus(ctx context.Context, block interfaces.Block, blockProofBytes []byte, prevBlock interfaces.Block, maybePrevBlockProofBytes []byte, softVerify bool) error {
+func (lh *WorkerLoop) ValidateBlockConsensus(ctx context.Context, block interfaces.Block, blockProofBytes []byte, prevBlock interfaces.Block, maybePrevBlockProofBytes []byte, softVerify bool) (err error) {
+	defer func() {
+		if r := recover(); r != nil { // malformed proof bytes must be rejected, not crash the caller
+			err = errors.Errorf("ValidateBlockConsensus: malformed blockProof: %v", r)
+		}
+	}()
 	if ctx.Err() != nil {
 		return errors.New("context canceled")
 	}
